@@ -875,7 +875,9 @@ def handler_expr_programs():
             for hk in (("map", "and_then") if is_try else ("then",)):
                 p = fp.build(mac, ds, flavour="Res" if is_try else None, handler=hk, hexpr_ev=True)
                 sub = fp.fail_slots(ds) if is_try else ()
-                cmp = "TryAsync" if (is_try and "async" in mac) else "Proj"
+                # sequential macros: the handler operand is evaluated where the expansion puts it today — first, before step 0 — and the
+                # whole trace is compared; elsewhere the count per trace key is judged
+                cmp = "TryAsync" if (is_try and "async" in mac) else ("Full" if mac in ("join", "try_join") else "Proj")
                 progs.append(fp.to_prog("hexpr/%s/%s/%s" % (mac, fp.pname(ds), hk), p, [[0]] if is_try else fp.offset_rows(), sub=sub, cmp=cmp))
     return progs
 
@@ -945,7 +947,7 @@ def c17(tier, rep):
     np_ = fn.nesting_programs(tier)
     fr2 = e2.run_family("c17nest", np_, extra_header=fn.NEST_HEADER)
     judge_family(rep, fr2)
-    sp = fn.sibling_programs(tier)
+    sp = fn.sibling_programs(tier) + fn.handler_operand_nesting()
     fr3 = e2.run_family("c17siblings", sp, extra_header=fn.NEST_HEADER)
     judge_family(rep, fr3)
     # thread-spawning macros nested in each other under every schedule: names compose, a lone step (and the macro nested in it) stays
